@@ -208,9 +208,22 @@ Proof.
 Qed.
 
 (** ** window of [write_events] *)
+Lemma window_spec es start stop :
+  0 <= start -> window es start stop = firstn (Z.to_nat (stop - start)) (skipn (Z.to_nat start) es).
+Proof.
+  intros H0. unfold window.
+  destruct (Z.le_gt_cases start (Z.of_nat (length es))) as [Hs|Hs].
+  - rewrite (Z.min_l start) by lia.
+    destruct (Z.le_gt_cases (stop - start) (Z.of_nat (length es))) as [Ht|Ht].
+    + now rewrite Z.min_l by lia.
+    + rewrite Z.min_r by lia. rewrite !firstn_all2; [reflexivity| |]; rewrite skipn_length; lia.
+  - rewrite (Z.min_r start) by lia. rewrite Nat2Z.id.
+    rewrite skipn_all. rewrite (skipn_all2 es) by lia. now rewrite !firstn_nil.
+Qed.
+
 Lemma window_full es start stop :
   0 <= start -> start <= stop -> (Z.to_nat stop <= length es)%nat ->
   length (window es start stop) = Z.to_nat (stop - start).
 Proof.
-  intros H0 H1 H2. unfold window. rewrite firstn_length, skipn_length. lia.
+  intros H0 H1 H2. rewrite window_spec by exact H0. rewrite firstn_length, skipn_length. lia.
 Qed.
